@@ -162,6 +162,15 @@ CUE_REPL = ["garbage %% ", "  TRACK 05", "    INDEX 01 99:99:99", "    INDEX 01 
             "  TRACK 99 AUDIO", "    INDEX 01 00:00:74"]
 
 
+# regular-expression stress lines: an unterminated quoted string / number list followed by a long run of one character
+PROBE_KW = ['    TITLE "', 'FILE "', "    INDEX 01 ", "  TRACK 01 ", "REM "]
+PROBE_FILL = ["a" * 40, " " * 40, "\\" * 40, '\\"' * 20, "0:" * 30, "\t" * 40, "A/" * 30]
+for _kw in PROBE_KW:
+    for _fill in PROBE_FILL:
+        CUE_REPL.append(_kw + _fill)
+        CUE_REPL.append(_kw + _fill + "!")
+
+
 def cue_base():
     tracks = [{"number": i + 1, "title": f"T{i + 1}", "indices": [(0, 3 * i), (1, 3 * i + 1)]} for i in range(3)]
     return Q.cue_lines("disc.bin", tracks)
@@ -201,7 +210,8 @@ class Check(CheckBase):
             "used FAT word (+2 beyond) <- {free, reserved, error, end marks, every used cluster, itself, 7, 8, 65526, 65527, "
             "65535}, FAT id/version, the five ID-area counts, pointer-list entries of volume/performance/patch/partial, sample "
             "fat_entry/type/loop points/loop mode/cluster_top/options; (cue) every line deleted / duplicated / replaced by 8 "
-            "hostile lines, bin missing or empty; thorough: ALL PAIRS of table faults (AKAI SAT x SAT, Roland FAT x FAT) and "
+            "hostile lines and by 70 regular-expression stress lines (keyword + unterminated quote/number list + 40 x one character), "
+            "bin missing or empty; thorough: ALL PAIRS of table faults (AKAI SAT x SAT, Roland FAT x FAT) and "
             "all pairs (table fault, pointer/entry fault). Every run = ls at the root and at every reachable node + export, "
             "under an 8 s CPU budget (clean run: 0.03-0.3 s) and a 6 GiB address-space limit. non-trivial = fault that changes "
             "the outcome class")
@@ -271,7 +281,12 @@ class Check(CheckBase):
                     rep.case({"kind": "fill", "byte": byte, "sectors": sectors}, ok=ok, klass=klass, nontrivial=True, detail=detail, sig="fill:" + klass)
         elif kind == "cue":
             for c in shard["cases"]:
+                if hangs >= 3:
+                    rep.notes["skipped after 3 hangs in a shard (verdict decided)"] += 1
+                    continue
                 ok, klass, detail = run_cue(c)
+                if not ok:
+                    hangs += 1
                 rep.case({"kind": "cue", "case": c}, ok=ok, klass=klass, nontrivial=c["op"] != "none", detail=detail, sig="cue:" + klass)
         else:
             key = shard["subject"]
